@@ -486,6 +486,36 @@ func unpackEngine(c *Ctx) {
 	for _, op := range corpus {
 		c.Emit2(op, unpackExec)
 	}
+	// extended attributes belong to the entry that carries them: an entry without any that follows one with some has none
+	// (two archives that differ only there scan to different ids), in either entry order
+	{
+		xa := map[string]string{"user.mime": "text/plain"}
+		mk := func(bx, ex map[string]string, rev bool) string {
+			hh := []RawHdr{{Name: "./", Typeflag: '5', Mode: 0755}, {Name: "./a", Typeflag: '0', Mode: 0644, Xattrs: xa, Content: []byte("a")},
+				{Name: "./b", Typeflag: '0', Mode: 0644, Xattrs: bx, Content: []byte("b")}, {Name: "./d/", Typeflag: '5', Mode: 0755, Xattrs: xa},
+				{Name: "./d/f", Typeflag: '0', Mode: 0644, Xattrs: ex, Content: []byte("f")}, {Name: "./e/", Typeflag: '5', Mode: 0755, Xattrs: ex}}
+			if rev {
+				hh = []RawHdr{hh[0], hh[2], hh[1], hh[5], hh[3], hh[4]}
+			}
+			return fmt.Sprintf("unpack tar %s pax none %s", lossless, hdrsTok(hh))
+		}
+		idOf := func(op string) string {
+			parts := strings.SplitN(unpackExec(c, op), "\x00", 2)
+			c.EmitR(op, parts[0], parts[1])
+			if len(parts) == 2 && strings.HasPrefix(parts[1], "ok ") {
+				return strings.Fields(parts[1])[1]
+			}
+			return ""
+		}
+		plain, both, plainRev := idOf(mk(nil, nil, false)), idOf(mk(xa, xa, false)), idOf(mk(nil, nil, true))
+		c.H("xattr-pair")
+		if plain != "" && plain == both {
+			c.PropFail("collision", "two archives that differ in the extended attributes of ./b, ./d/f and ./e (none, or those of the preceding entry) scan to the same id", mk(xa, xa, false))
+		}
+		if plain != "" && plainRev != "" && plain != plainRev {
+			c.PropFail("format", "one fileset (some entries with extended attributes, some without) scans to two ids in two entry orders", mk(nil, nil, true))
+		}
+	}
 	// the magic-number names are well-formed archives: they must be accepted (C05), not merely agree with the model
 	for _, op := range corpus {
 		if strings.Contains(op, hx("BZh")) || strings.Contains(op, hx("\x1f\x8b\x08")) || strings.Contains(op, hx("\xfd7zXZ")) || strings.Contains(op, hx("MYLABEL")) || strings.Contains(op, fmt.Sprintf(",%d,", 'D')) {
